@@ -124,13 +124,67 @@ import sys, json, hashlib
 from chameleon import PageTemplate
 T = json.loads(sys.argv[1])
 sys.path.insert(0, %r)
-from checks.c14 import make_args
-out = {}
-for name, src in sorted(T.items()):
-    t = PageTemplate(src)
-    out[name] = [t(**make_args(x)) for x in range(6)]
-print(json.dumps(out))
+from checks.c14 import make_args, render_all
+print(json.dumps({name: render_all(src) for name, src in sorted(T.items())}))
 '''
+
+
+def render_all(src):
+    from chameleon import PageTemplate
+    try:
+        t = PageTemplate(src)
+    except Exception as e:
+        return ['COMPILE %s' % type(e).__name__]
+    out = []
+    for x in range(6):
+        try:
+            out.append(t(**make_args(x)))
+        except Exception as e:
+            out.append('RAISED %s' % type(e).__name__)
+    return out
+
+
+ORDER_NAMES = ['title', 'alt', 'class', 'id', 'lang', 'summary', 'href', 'rel', 'name', 'value', 'Data-X', 'aria-label']
+
+
+def gen_order_template(rng):
+    """Elements whose attributes come from several sources at once (written, tal:attributes list, dictionary,
+    i18n:attributes naming present and absent attributes), several variables per define, macros with several
+    slots: everything whose emission order could depend on set/dict iteration."""
+    parts = []
+    for _ in range(rng.randint(1, 3)):
+        names = rng.sample(ORDER_NAMES, rng.randint(2, 7))
+        static = [n for n in names if rng.random() < .4]
+        dyn = [n for n in names if rng.random() < .4]
+        i18n = [n for n in names if rng.random() < .6]
+        a = ''.join(' %s="s%d"' % (n, k) for k, n in enumerate(static))
+        if dyn or rng.random() < .3:
+            items = ['%s x + %d' % (n.lower(), k) for k, n in enumerate(dyn)]
+            if rng.random() < .4:
+                items.append('d')
+            if items:
+                a += ' tal:attributes="%s"' % '; '.join(items)
+        if i18n:
+            a += ' i18n:attributes="%s"' % '; '.join(n.lower() + (' mid%d' % k if rng.random() < .4 else '') for k, n in enumerate(i18n))
+        defs = rng.sample(['va', 'vb', 'vc', 'vd', 've'], rng.randint(0, 4))
+        if defs:
+            a += ' tal:define="%s"' % '; '.join('%s%s x * %d' % ('global ' if rng.random() < .3 else '', v, k) for k, v in enumerate(defs))
+        body = ''.join('${%s}' % v for v in defs) + rng.choice(['', '${sorted(d)}', '${d}', '${xs}'])
+        parts.append('<p%s>%s</p>' % (a, body))
+    if rng.random() < .4:
+        slots = rng.sample(['s1', 's2', 's3', 's4'], rng.randint(2, 4))
+        parts.append('<m metal:define-macro="mm">%s</m><u metal:use-macro="template.macros[\'mm\']">%s</u>' % (
+            ''.join('<i metal:define-slot="%s">d-%s</i>' % (s_, s_) for s_ in slots),
+            ''.join('<b metal:fill-slot="%s">f-%s-${x}</b>' % (s_, s_) for s_ in rng.sample(slots, rng.randint(1, len(slots))))))
+    return '<div>' + ''.join(parts) + '</div>'
+
+
+def cross_process_corpus():
+    corpus = dict(TEMPLATES)
+    rng = random.Random('c14-cross-process-%s' % os.environ.get('VERIF_SEED', '0'))
+    for k in range(60):
+        corpus['generated-%02d' % k] = gen_order_template(rng)
+    return corpus
 
 
 def layer_cross_process(ctx):
@@ -139,23 +193,24 @@ def layer_cross_process(ctx):
     seeds = ['0', '1', '4242', 'random']
     seed = seeds[ctx.shard % 4]
     e = env.child_env({'PYTHONHASHSEED': seed})
-    p = subprocess.run([env.PY, '-c', CHILD_SNIPPET % env.VERIF, json.dumps(TEMPLATES)], env=e, capture_output=True,
+    corpus = cross_process_corpus()
+    p = subprocess.run([env.PY, '-c', CHILD_SNIPPET % env.VERIF, json.dumps(corpus)], env=e, capture_output=True,
                        text=True, timeout=300, cwd=env.VERIF)
     if p.returncode:
         ctx.mark_inconclusive('cross-process child failed: ' + p.stderr[-200:])
         return
     got = json.loads(p.stdout)
     from chameleon import PageTemplate
-    for name, src in sorted(TEMPLATES.items()):
-        t = PageTemplate(src)
-        here = [t(**make_args(x)) for x in range(6)]
+    for name, src in sorted(corpus.items()):
+        here = render_all(src)
         ctx.mon('cross-process-outputs', len(here))
+        ctx.cover('cross-process-outcome', 'rendered' if not here[0].startswith(('COMPILE', 'RAISED')) else here[0])
         ctx.case(key=('xproc', name, seed), nontrivial=True)
         if got[name] != here:
-            i = next(i for i in range(6) if got[name][i] != here[i])
+            i = next(i for i in range(len(here)) if got[name][i] != here[i])
             ctx.violation('cross-process-output-differs',
-                          'template %s x=%d: PYTHONHASHSEED=%s process rendered %r, this process %r' % (
-                              name, i, seed, got[name][i], here[i]), {'kind': 'xproc', 'template': name, 'seed': seed})
+                          'template %s %r x=%d: PYTHONHASHSEED=%s process rendered %r, this process %r' % (
+                              name, src, i, seed, got[name][i], here[i]), {'kind': 'xproc', 'template': name, 'seed': seed})
 
 
 # --------------------------------------------------------------------------
